@@ -1,39 +1,19 @@
 ------------------------------ MODULE Pool_Ind ------------------------------
-(* C13, unbounded assurance for the wait-list protocol of liteapi/pool:        *)
-(* an INDUCTIVE invariant of the repaired protocol (FixNotify = FixTimer =     *)
-(* FixSetHead = TRUE, the code as it is in /repo) under the open environment   *)
-(* GNext of Pool_Open, discharged by Apalache:                                 *)
+(* Apalache obligations for the inductive invariant IndInv of Pool_Inv under    *)
+(* the open environment GNext of Pool_Open:                                    *)
 (*                                                                             *)
-(*   base   Init => IndInv                 --init=Init    --inv=IndInv --length=0 *)
-(*   step   IndInv /\ GNext => IndInv'     --init=IndInit --inv=IndInv --length=1 *)
-(*   use    IndInv => NeverStuck /\ ...    --init=IndInit --inv=Goals  --length=0 *)
-(*   acts   IndInv /\ GNext => ActGoals    --init=IndInit --inv=ActGoals --length=1 *)
+(*   base   Init => IndInv                --cinit=C --init=Init    --inv=IndInv   --length=0 *)
+(*   step   IndInv /\ N => IndInv'        --cinit=C --init=IndInit --next=N --inv=IndInv --length=1 *)
+(*          for every group N of GNextSplit (N_Conn, N_RunNtf, N_RunUpd, N_WSub, N_WWait, N_WUnsub, N_Tick) *)
+(*   use    IndInv => Goals               --cinit=C --init=IndInit --inv=Goals    --length=0 *)
+(*   acts   IndInv /\ GNext => ActGoals   --cinit=C --init=IndInit --next=GNext --inv=ActGoals --length=1 *)
 (*                                                                             *)
-(* Heads, seqnos asked for, timeouts, the clock, the number of liveness flips  *)
-(* are arbitrary natural numbers (SMT integers, no bound); the channel         *)
-(* capacities are the real ones (UpdCap = 10, WCap = 1).  The number of        *)
-(* connections and the set of waiters are fixed per run by the operators       *)
-(* CInit_* below (Apalache unrolls quantifiers over them).                     *)
-EXTENDS Pool_Open, Apalache
-
-CPcs   == {"idle", "locked", "send"}
-RPcs   == {"idle", "rlock", "send", "exit", "upd_acq", "upd_in"}
-WPcs   == {"idle", "sub", "sub_acq", "sub_in", "sub_rd", "waiting", "unsub", "unsub_acq", "unsub_in", "done"}
-WIn    == {"sub_in", "sub_rd", "unsub_in"}              \* inside a critical section of the write lock
-WPend  == WIn \cup {"sub_acq", "unsub_acq"}              \* has announced itself as the pending writer
-Results == {"none", "ok", "timeout", "cancel"}
-Procs  == Waiters \cup {None, RunP}
-
-(* ---------------------------------------------------------------- parameters *)
-\* what the proofs assume about the constants (the sizes are fixed by CInit_*)
-ParamOK ==
-  /\ NC \in Nat /\ NC >= 1
-  /\ None \notin Waiters /\ RunP \notin Waiters /\ None # RunP
-  /\ UpdCap \in Nat /\ UpdCap >= 1
-  /\ MaxTime \in Nat /\ MaxFlips \in Nat /\ MaxSeq \in Nat
-  /\ MaxTime < Inf                 \* the clock stays below the value that stands for "no timer" (10^9 ticks)
-  /\ Strategy \in Strategies
-  /\ FixNotify /\ FixTimer /\ FixSetHead
+(* Heads, seqnos asked for, timeouts, the clock bound, the number of liveness  *)
+(* flips, round-trip times are arbitrary natural numbers (SMT integers); the   *)
+(* channel capacities are the real ones (UpdCap = 10, WCap = 1).  The number   *)
+(* of connections and the set of waiters are fixed per run by CInit_<n>x<m>    *)
+(* (Apalache unrolls the quantifiers over them).                               *)
+EXTENDS Pool_Inv, Apalache
 
 \* the constants GNext never reads (Steps, Wants, Timeouts) get arbitrary fixed values
 CInitCommon ==
@@ -50,88 +30,19 @@ CInit_3x4 == /\ NC = 3 /\ Waiters = {"w1", "w2", "w3", "w4"} /\ UpdCap = 10
 CInit_4x6 == /\ NC = 4 /\ Waiters = {"w1", "w2", "w3", "w4", "w5", "w6"} /\ UpdCap = 10
              /\ Rtt0 \in [1..4 -> Nat] /\ CInitCommon
 
-(* --------------------------------------------------------------------- types *)
-\* the type part: every variable is constrained
-TypeInv ==
-  /\ head \in [Conns -> Nat] /\ alive \in [Conns -> BOOLEAN] /\ rtt \in [Conns -> Nat]
-  /\ clk \in [Conns -> BOOLEAN]
-  /\ Len(updCh) <= UpdCap
-  /\ \A i \in DOMAIN updCh : updCh[i][1] \in Conns /\ updCh[i][2] \in Nat
-  /\ cpc \in [Conns -> CPcs] /\ cnew \in [Conns -> Nat]
-  /\ rw \in [w : Procs, pend : Procs, r : SUBSET Procs]
-  /\ best \in Conns
-  /\ reg \in [Waiters -> BOOLEAN]
-  /\ DOMAIN ch = Waiters
-  /\ \A w \in Waiters : /\ Len(ch[w]) <= WCap
-                        /\ \A i \in DOMAIN ch[w] : ch[w][i][1] \in Nat /\ ch[w][i][2] \in Conns /\ ch[w][i][3] \in Conns
-  /\ wpc \in [Waiters -> WPcs]
-  /\ want \in [Waiters -> Nat] /\ tmo \in [Waiters -> Nat] /\ hread \in [Waiters -> Nat]
-  /\ timer \in [Waiters -> Nat] /\ orig \in [Waiters -> Nat]
-  /\ cancelled \in [Waiters -> BOOLEAN] /\ result \in [Waiters -> Results]
-  /\ DOMAIN okby = Waiters
-  /\ \A w \in Waiters : okby[w][1] \in Nat /\ okby[w][2] \in Nat /\ okby[w][3] \in Nat
-  /\ rett \in [Waiters -> Nat]
-  /\ rpc \in RPcs /\ rupd[1] \in Nat /\ rupd[2] \in Nat /\ rtodo \subseteq Waiters
-  /\ now \in Nat /\ flips \in Nat /\ now <= MaxTime
-
-(* ----------------------------------------------------------- lock discipline *)
-LockInv ==
-  \* the RWMutex itself: a writer excludes readers; the only reader there ever is, is the run loop
-  /\ rw.w # None => rw.pend = rw.w /\ rw.r = {}
-  /\ rw.r \subseteq {RunP}
-  \* who holds what is a function of the program counters
-  /\ RunP \in rw.r <=> rpc \in {"send", "exit"}
-  /\ rw.pend = RunP <=> rpc \in {"upd_acq", "upd_in"}
-  /\ rw.w = RunP <=> rpc = "upd_in"
-  /\ \A w \in Waiters : /\ rw.pend = w <=> wpc[w] \in WPend
-                        /\ rw.w = w <=> wpc[w] \in WIn
-  \* notifySubscribers is in its loop only while somebody is left to notify
-  /\ rpc = "send" => rtodo # {}
-  \* the wait list: an entry exists only while its owner is between subscribe and unsubscribe; the run loop's
-  \* work list is a snapshot of the wait list that stays valid as long as the read lock is held; a channel is
-  \* empty until its owner's subscribe has finished
-  /\ \A w \in Waiters : reg[w] => wpc[w] \in {"waiting", "unsub", "unsub_acq", "unsub_in"}
-  /\ rpc = "send" => \A w \in rtodo : reg[w]
-  /\ \A w \in Waiters : wpc[w] \in {"idle", "sub", "sub_acq", "sub_in", "sub_rd"} => ch[w] = <<>>
-  \* connection lock: held exactly between Lock and the end of the update (repaired SetMasterHead)
-  /\ \A k \in Conns : clk[k] <=> cpc[k] = "locked"
-
-(* --------------------------------------------------- justification of results *)
-\* a head value that is around was reported by the connection it is attributed to
-\* @type: (<<Int, Int, Int>>) => Bool;
-MsgOK(m) == m[2] \in Conns /\ head[m[2]] >= m[1] /\ m[2] = m[3]
-DataInv ==
-  /\ \A i \in DOMAIN updCh : head[updCh[i][1]] >= updCh[i][2]
-  /\ \A k \in Conns : cpc[k] = "send" => head[k] >= cnew[k]
-  /\ rpc # "idle" /\ rpc # "upd_acq" /\ rpc # "upd_in" => rupd[1] \in Conns /\ head[rupd[1]] >= rupd[2]
-  /\ rpc = "send" => rupd[1] = best
-  /\ \A w \in Waiters :
-       /\ \A i \in DOMAIN ch[w] : MsgOK(ch[w][i])
-       /\ wpc[w] = "sub_rd" => head[best] >= hread[w]
-       /\ result[w] = "ok" => okby[w][1] >= want[w] /\ MsgOK(okby[w])
-       /\ result[w] = "timeout" => orig[w] # Inf /\ rett[w] >= orig[w]
-       /\ result[w] = "cancel" => cancelled[w]
-       /\ wpc[w] \in {"idle", "sub", "sub_acq", "sub_in", "sub_rd", "waiting"} => result[w] = "none"
-
-(* ------------------------------------------------------------------ deadlines *)
-\* the timer is created once per call; while the call is past its select the clock has not passed the deadline
-TimeInv ==
-  \A w \in Waiters :
-    /\ wpc[w] \in {"waiting", "unsub", "unsub_acq", "unsub_in"} => timer[w] = orig[w]
-    /\ wpc[w] \in {"waiting", "unsub", "unsub_acq", "unsub_in"} /\ orig[w] # Inf => now <= orig[w]
-
-IndInv == TypeInv /\ LockInv /\ DataInv /\ TimeInv
-
 \* Apalache: every variable is assigned (Gen(n): an arbitrary value whose collections have at most n elements), then constrained
 IndInit ==
   /\ head \in [Conns -> Nat] /\ alive \in [Conns -> BOOLEAN] /\ rtt \in [Conns -> Nat]
   /\ clk \in [Conns -> BOOLEAN]
   /\ updCh = Gen(10)
   /\ cpc \in [Conns -> CPcs] /\ cnew \in [Conns -> Nat]
-  /\ rw \in [w : Procs, pend : Procs, r : SUBSET Procs]
+  /\ \E a \in Procs, b \in Procs : \E c \in SUBSET Procs : rw = [w |-> a, pend |-> b, r |-> c]
   /\ best \in Conns
   /\ reg \in [Waiters -> BOOLEAN]
-  /\ ch = Gen(6)
+  /\ LET \* @type: Str -> <<Int, Int, Int>>;
+         m == Gen(6)
+     IN \E full \in SUBSET Waiters :                  \* a waiter channel holds at most WCap = 1 head
+          ch = [w \in Waiters |-> IF w \in full THEN <<m[w]>> ELSE <<>>]
   /\ wpc \in [Waiters -> WPcs]
   /\ want \in [Waiters -> Nat] /\ tmo \in [Waiters -> Nat] /\ hread \in [Waiters -> Nat]
   /\ timer \in [Waiters -> Nat] /\ orig \in [Waiters -> Nat]
@@ -143,28 +54,6 @@ IndInit ==
   /\ ParamOK
   /\ IndInv
 
-(* ---------------------------------------------------------------------- goals *)
-\* state predicates implied by IndInv alone
-NoSendUnderConnLock == \A k \in Conns : cpc[k] = "send" => ~clk[k]        \* SetMasterHead publishes after unlocking
-NotifyNeverBlocks   == rpc = "send" => \E w \in rtodo : G_RunSend(w)       \* holding the read lock, the next send is enabled
-NotifyUnderRLock    == rpc = "send" => RunP \in rw.r /\ rw.w = None
-WriterExcludesRun   == \A w \in Waiters : wpc[w] \in WIn => rpc \notin {"send", "exit", "upd_in"}
-OneWriter           == \A v, w \in Waiters : wpc[v] \in WIn /\ wpc[w] \in WIn => v = w
-ChanCapacity        == Len(updCh) <= UpdCap /\ \A w \in Waiters : Len(ch[w]) <= WCap
-Goals == /\ NeverStuck /\ ByDeadline /\ OkJustified /\ ErrJustified
-         /\ NoSendUnderConnLock /\ NotifyNeverBlocks /\ NotifyUnderRLock /\ WriterExcludesRun /\ OneWriter /\ ChanCapacity
-
-\* action predicates: who may touch a waiter channel / the wait list, and holding what
-ChanWriteDiscipline ==
-  \A w \in Waiters : ch'[w] # ch[w] =>
-     \/ /\ rpc = "send" /\ w \in rtodo /\ RunP \in rw.r /\ rw.w = None       \* the run loop, under the read lock,
-        /\ reg[w] /\ Len(ch'[w]) = 1                                        \*   to a channel that is in the wait list
-     \/ /\ wpc[w] = "sub_rd" /\ rw.w = w /\ ~reg[w]                          \* the owner's subscribe, under the write lock,
-        /\ Len(ch'[w]) = 1                                                   \*   before the channel is in the wait list
-     \/ /\ wpc[w] = "waiting" /\ ch[w] # <<>> /\ ch'[w] = Tail(ch[w])        \* the owner receives
-WaitListDiscipline ==
-  \A w \in Waiters : reg'[w] # reg[w] => rw.w = w /\ rw.r = {} /\ rpc \notin {"send", "exit"}
-ConnLockDiscipline ==
-  \A k \in Conns : Len(updCh') > Len(updCh) /\ cpc[k] = "send" /\ cpc'[k] = "idle" => ~clk[k]
-ActGoals == ChanWriteDiscipline /\ WaitListDiscipline /\ ConnLockDiscipline
+\* the inductive step as ONE action invariant (no re-check of IndInv in the state that IndInit already constrains)
+IndInvNext == IndInv'
 =============================================================================
